@@ -7,9 +7,13 @@ def generate(G):
              ("square", "Square", [L([2])], "quick", 6), ("bcast", "Mul", [L([2]), L([1, 2], "D4")], "quick", 8), ("bcast2x2", "Mul", [L([2]), L([2, 2], "D2")], "thorough", 8),
              ("diamond", "Diamond", [L([2], "D2"), L([2], "D2")], "thorough", 6), ("sum1", "Sum(1)", [L([2, 2])], "thorough", 8),
              ("matmul", "Matmul { at: false, bt: true, c: false }", [L([1, 2], "D2"), L([2, 2], "D2")], "thorough", 8),
-             ("neg", "Neg", [L([2])], "thorough", 6), ("untracked", "MulAddShare", [L([2]), L([2], tracked=False)], "thorough", 6)]
+             ("neg", "Neg", [L([2])], "thorough", 6),
+             ("dot", "Matmul { at: false, bt: false, c: false }", [L([2]), L([2])], "quick", 8),
+             ("recip", "Recip", [L([2], "Pos")], "quick", 6), ("div", "Div", [L([2]), L([2], "Pos")], "thorough", 6),
+             ("powf3", "Powf(3.0)", [L([2])], "thorough", 6), ("sumsq", "DivSum", [L([1, 2], "Pos")], "thorough", 6), ("untracked", "MulAddShare", [L([2]), L([2], tracked=False)], "thorough", 6)]
     for id, prog, ls, tier, unwind in progs:
-        G.ob("c17_linear_" + id, "C17", "linear", "c17::linear(s, &programs::%s, %s)" % (prog, G.leaves(ls)), unwind=unwind, tier=tier,
+        st = ("powf",) if id in ("recip", "div", "powf3", "sumsq") else ()
+        G.ob("c17_linear_" + id, "C17", "linear", "c17::linear(s, &programs::%s, %s)" % (prog, G.leaves(ls)), unwind=unwind, tier=tier, stubs=st,
              skeleton={"program": prog, "leaves": ls, "coefficients": "alpha, beta in {0,1,2}"}, domains="values D4/D2, s1, s2 D4")
         G.ob("c17_default_" + id, "C17", "default_seed", "c17::default_seed(s, &programs::%s, %s)" % (prog, G.leaves(ls)),
-             unwind=unwind, tier=tier if id in ("mul", "bcast", "muladdshare") else "thorough", skeleton={"program": prog, "leaves": ls})
+             unwind=unwind, tier=tier if id in ("mul", "bcast", "muladdshare") else "thorough", stubs=st, skeleton={"program": prog, "leaves": ls})
